@@ -338,8 +338,12 @@ class MemoryLogger(object):
             for frame in inspect.stack():
                 if frame[1] not in skip_filenames:
                     break
+            # (safeunicode: the text of a validation error includes the repr
+            # of the offending value, which may itself raise)
             self._failed_validations.append(
-                "{}: {}".format(e, "".join(traceback.format_stack(frame[0])))
+                "{}: {}".format(
+                    safeunicode(e), "".join(traceback.format_stack(frame[0]))
+                )
             )
         self.messages.append(dictionary)
         self.serializers.append(serializer)
